@@ -17,7 +17,7 @@ from .. import e2e, guard, realcall
 from ..common import Rng, hx, unhx
 from ..runner import Check
 from ..translate import graphql_tables
-from . import c17_bridge, c17_fields, c17_order
+from . import c17_bridge, c17_enum, c17_fields, c17_order
 
 NoneType = type(None)
 BUILTIN = {"Int": "int", "Float": "float", "String": "str", "Boolean": "bool", "ID": "str"}  # GraphQL spec §3.5
@@ -520,6 +520,10 @@ class NoInstance(Exception):
     pass
 
 
+# enum type name -> the value every instance of that enum takes (set by the oracle while it names each value once)
+ENUM_PICK: dict[str, str] = {}
+
+
 def make_instance(rng: Rng, schema, gtype, scalar_py: dict[str, str], with_typename: bool, depth: int = 0):
     """A JSON value conforming to GraphQL type `gtype` (response/input coercion rules of the spec)."""
     import graphql
@@ -549,6 +553,8 @@ def _inst_nn(rng, schema, t, scalar_py, with_typename, depth):
             return rng.chance(1, 2)
         return rng.choice(["x", "", "some text", "4"])
     if graphql.is_enum_type(t):
+        if ENUM_PICK.get(t.name) is not None:
+            return ENUM_PICK[t.name]
         return rng.choice(sorted(t.values))
     if graphql.is_union_type(t):
         return _inst_nn(rng, schema, rng.choice(list(t.types)), scalar_py, with_typename, depth)
@@ -741,8 +747,18 @@ def _check_module(ck, camp, fail, schema, mod, code, kind, flags, scalar_map, se
             cls = getattr(mod, n, None)
             if not (isinstance(cls, type) and issubclass(cls, enum.Enum)):
                 return fail("enum_missing", f"enum {n}: no Enum class of that name ({cls!r})")
-            if set(cls.__members__) != set(t.values):
-                return fail("enum_names", f"enum {n}: members {sorted(cls.__members__)} ≠ value names {sorted(t.values)}")
+            # the Enum's VALUES are exactly the GraphQL value names (that is what JSON carries); one member each
+            have_values = [m.value for m in cls]
+            if sorted(map(repr, have_values)) != sorted(map(repr, t.values)) or len(cls.__members__) != len(t.values):
+                renamed = sorted(v for v in t.values if c17_enum.must_rename(v, flags, t.values))
+                return fail("enum_values", f"enum {n}: the Enum's values {sorted(have_values, key=repr)} ≠ value names {sorted(t.values)} "
+                            f"(members {sorted(cls.__members__)})", renamed_members=bool(renamed))
+            # … and the member NAMES are the value names too, wherever Python lets a member have that name
+            # (a keyword, `mro`, a leading underscore, an attribute of the Enum machinery cannot be one;
+            # capitalise_enum_members asks for another spelling)
+            for v in t.values:
+                if not c17_enum.must_rename(v, flags, t.values) and cls(v).name != v:
+                    return fail("enum_names", f"enum {n}: members {sorted(cls.__members__)} ≠ value names {sorted(t.values)}")
     object_like = {n: t for n, t in tm.items() if graphql.is_object_type(t) or graphql.is_interface_type(t) or graphql.is_input_object_type(t)}
     for n in object_like:
         if not isinstance(getattr(mod, n, None), type) or n not in classdefs:
@@ -889,6 +905,39 @@ def _check_module(ck, camp, fail, schema, mod, code, kind, flags, scalar_map, se
                 if classify_import_error(e, schema) == "base_order_mro":
                     return fail("base_order_mro", f"type {n}: validating against the class raised {type(e).__name__}: {str(e)[:200]}")
                 return fail("instance_rejected", f"type {n}: conforming object {json.dumps(value)[:300]} rejected: {type(e).__name__}: {str(e)[:300]}")
+    # --- … and so does a conforming object naming EACH value of an enum (every enum type × every value, on the
+    # first object / input type with a field of that enum type at any wrapper depth)
+    for en, et in tm.items():
+        if not graphql.is_enum_type(et):
+            continue
+        user = next((n for n, t in object_like.items() if not graphql.is_interface_type(t)
+                     and any(graphql.get_named_type(f.type) is et for f in t.fields.values())), None)
+        if user is None:
+            continue
+        for v in sorted(et.values)[:12]:
+            ENUM_PICK[en] = v
+            try:
+                value = None
+                for _ in range(6):  # a nullable level may come out null: draw until the value is named
+                    value = _inst_nn(rng, schema, object_like[user], scalar_py, with_typename, 0)
+                    if json.dumps(v) in json.dumps(value):
+                        break
+                else:
+                    continue
+            except NoInstance:
+                break
+            finally:
+                ENUM_PICK.pop(en, None)
+            camp.hit("instance_naming_enum_value")
+            try:
+                with warnings.catch_warnings():
+                    warnings.simplefilter("ignore")
+                    validate_instance(getattr(mod, user), kind, value)
+            except Exception as e:  # noqa: BLE001
+                if classify_import_error(e, schema) == "base_order_mro":
+                    return fail("base_order_mro", f"type {user}: validating against the class raised {type(e).__name__}: {str(e)[:200]}")
+                return fail("instance_rejected", f"type {user}: conforming object {json.dumps(value)[:300]} naming {en}.{v} rejected: "
+                            f"{type(e).__name__}: {str(e)[:300]}", enum_value_renamed=c17_enum.must_rename(v, flags, et.values))
 
 
 def campaign_e2e(ck: Check, n_docs: int, variants: int) -> None:
@@ -1037,11 +1086,20 @@ def known_findings(ck: Check) -> None:
 def run(ck: Check) -> None:
     quick = ck.tier == "quick"
     ck.translate(graphql_tables.GEN_NAME, graphql_tables.generate())
+    # the enum half rests on C09's model of the member loop: its tables (escape_characters, the initial excludes of
+    # the GraphQL call site, the identifier tables of the resolver) are regenerated here as well
+    from ..translate import enum_sites, esc
+    from ..translate import unicode as uni
+
+    ck.translate("Unicode", uni.generate())
+    ck.translate("EscTables", esc.generate())
+    ck.translate("EnumSites", enum_sites.generate())
     ck.prove()
     ck.assumptions += [
         "graphql-core (build_schema, lexicographic_sort_schema, the is_*_type predicates) is used as it is; the model takes the order of fields and interfaces it reports as a parameter",
         "type expressions are well-formed (no `!` directly on `!`): the SDL grammar and graphql-core both refuse the others (checked in the malformed stream)",
-        "field names are prefixed f_ and enum values V_ so that member-name mangling (C07), keyword clashes and the type-name/field-name alias defect (C02) stay out of this property",
+        "field names are prefixed f_ so that member-name mangling (C07), keyword clashes and the type-name/field-name alias defect (C02) stay out of this property; enum values are prefixed V_ everywhere except in the enum-renaming family (c17_enum), whose value names are the ones the enum resolver must rename — there the property is read as: the Enum's VALUES are the GraphQL value names (JSON carries values), the member name equals the value name wherever Python allows it",
+        "enum value names starting with `__` (reserved by GraphQL introspection: validate_schema refuses them) occur only in the parser-level correspondence gqlenum.values, not in end-to-end documents",
         "types named Query / Mutation are skipped by the generator by design (Gen/GraphqlTables.skippedTypeNames); documents name their root type differently",
         "a non-null input field is required in the generated class whether or not the schema gives it a default (the property's statement: a non-null field is required); its default is then not observable on the member and is compared only under force-optional; conforming input objects supply every non-null field",
         "default values are compared with graphql-core's coerced `default_value` (value_from_ast): type-strict (0, 0.0, False differ), a float by its repr, a dict regardless of key order, an Enum member as the value it stands for; TypedDict output has no defaults; msgspec output is not executable here",
@@ -1061,11 +1119,14 @@ def run(ck: Check) -> None:
     guard.campaign(ck, c17_fields.campaign_defaults_e2e, me, 30 if quick else 150)
     guard.campaign(ck, c17_fields.campaign_defaults_static, me, 12 if quick else 120)
     guard.campaign(ck, c17_fields.campaign_clash, me, 40 if quick else 200)
+    guard.campaign(ck, c17_enum.campaign_enum_values, me, 150 if quick else 2000)
+    guard.campaign(ck, c17_enum.campaign_enum_family, me, 24 if quick else 300)
     guard.campaign(ck, c17_order.campaign_family, me, quick)
     guard.campaign(ck, c17_order.campaign_all_orders, me, quick)
     guard.campaign(ck, campaign_e2e, 150 if quick else 1200, 2)
     guard.campaign(ck, c17_order.campaign_order, me)
     ck.c17_obs = []
+    ck.search_hooks.append(lambda c: c17_enum.search_enum(c, me))
     ck.search_hooks.append(lambda c: c17_fields.search_from_disagreements(c, me))
     ck.search_hooks.append(lambda c: c17_fields.search_members(c, me))
     ck.search_hooks.append(lambda c: c17_order.search_order(c, me))
